@@ -21,7 +21,7 @@ from sim.world import Run
 
 ID = "C18"
 LEVEL = "exploration"
-RUNS = {"quick": 20000, "thorough": 300000}
+RUNS = {"quick": 20000, "thorough": 1800000}
 BUDGET = {"quick": 100.0, "thorough": 3300.0}
 RULE = ("one run = ~20 frames drawn from {plain->keyed, plain->unkeyed, secured->keyed, secured->unkeyed, S-A_Sync, tool "
         "access, system broadcast, secured point-to-point, unknown key, authenticated frame with malformed inner APDU of a "
